@@ -321,7 +321,17 @@ func delLeaves(w *drv.World) []string {
 	return ls
 }
 
-// trim (C15)
+// trim (C15): the times alphabet plus, as a first publish, a far-future time followed by a
+// step back (the "no message newer than the bound is removed" clause is not conditioned on
+// non-decreasing times)
+func trimLetters(w *drv.World) []string {
+	ls := timesLetters(w)
+	if w.M.Next == 0 {
+		ls = append(ls, "P:0/100/u,1/-99/u")
+	}
+	return ls
+}
+
 func trimLeaves(w *drv.World) []string {
 	var ls []string
 	modes := []string{"m", "o", "s"}
@@ -457,16 +467,21 @@ func init() {
 		AtClose: func(w *drv.World) { w.CheckIndexFiles(); w.IndexSubsets(true) },
 	})
 	Register(&Family{
-		Name: "del", Charge: "C12", Cfgs: []drv.Cfg{cfgBoth, withVer(cfgNone, 1), withKeep(cfgKeys, true)}, Letters: delLetters, Leaves: delLeaves,
+		Name: "del", Charge: "C12", Cfgs: []drv.Cfg{cfgBoth, withVer(cfgNone, 1), withKeep(cfgKeys, true), withAS(cfgTimes)}, Letters: delLetters, Leaves: delLeaves,
 		Depth: map[string]int{"quick": 5, "thorough": 6}, Obs: drv.ObsWalk | drv.ObsNext | drv.ObsGet | drv.ObsStat, KeySet: []int{0, 1},
 	})
 	Register(&Family{
-		Name: "trim", Charge: "C15", Cfgs: []drv.Cfg{cfgBoth, cfgNone, withVer(cfgTimes, 1)}, Letters: timesLetters, Leaves: trimLeaves,
+		Name: "trim", Charge: "C15", Cfgs: []drv.Cfg{cfgBoth, cfgNone, withVer(cfgTimes, 1), withAS(cfgTimes)}, Letters: trimLetters, Leaves: trimLeaves,
 		Depth: map[string]int{"quick": 4, "thorough": 5}, Obs: drv.ObsTrim | drv.ObsWalk | drv.ObsNext, LeafObs: drv.ObsWalk | drv.ObsNext | drv.ObsStat, KeySet: []int{0},
 	})
 	Register(&Family{
-		Name: "kv", Cfgs: []drv.Cfg{cfgBoth, cfgNone}, Letters: kvLetters(2),
+		Name: "kv", Cfgs: []drv.Cfg{cfgBoth, cfgNone, withAS(cfgKeys)}, Letters: kvLetters(2),
 		Depth: map[string]int{"quick": 4, "thorough": 5}, Obs: drv.ObsWalk | drv.ObsNext | drv.ObsKey, KeySet: []int{0, 1, 2},
+	})
+	// the same from a non-initial state: one message published, index files removed, reopened
+	Register(&Family{
+		Name: "kv-rx", Cfgs: []drv.Cfg{cfgBoth}, Letters: kvLetters(2), Prefix: []string{"P:0/1/u", "RX:all"},
+		Depth: map[string]int{"quick": 3, "thorough": 4}, Obs: drv.ObsWalk | drv.ObsNext | drv.ObsKey, KeySet: []int{0, 1, 2},
 	})
 	Register(&Family{
 		Name: "versions", Charge: "C17", Cfgs: append(allIdx(1), allIdx(2)...), Letters: versionLetters,
